@@ -1,5 +1,6 @@
 SPECIFICATION Spec
 CONSTANT MatchMode = "full"
+CONSTANT PubMode = "all"
 CONSTANT StoreLiteral = TRUE
 INVARIANTS DialedIsChecked CheckedIsPermitted ResolvedOnce PermittedLiteralAccepted MalformedRejected
 CHECK_DEADLOCK FALSE
